@@ -154,6 +154,10 @@ package io
 //@   ensures this.obs.wbits >= old(this.obs.wbits)                                                                 #bits-monotone
 //@   panics this.obs.ofailed || old(this.obs.oclosed)                                                              #header-write-may-panic
 //@   modifies this.available, this.blockID, this.initialized, this.buffers[*], this.obs.wbits, this.obs.ofailed, this.obs.tapeV, this.obs.tapeW, this.obs.plain, "A!Int"
+//@   ghostlocal calleeFailed bool = false
+//@   aftercall Writer).processBlock set calleeFailed = calleeFailed || result != nil
+//@   atreturn calleeFailed ==> result1 != nil                                                                      #block-error-is-returned @C08
+//@   loop 1 invariant !calleeFailed
 //@   loop 1 invariant this.obs.wbits >= old(this.obs.wbits) && this.repW() && this.buffersOK() && this.closed == 0 && this.closing == 0 && this.finalized == old(this.finalized) && off + remaining == len(block) && 0 <= remaining && 0 <= off
 //@   loop 1 invariant this.available < this.jobs*this.blockSize && this.available / this.blockSize < this.jobs && len(this.buffers[this.available / this.blockSize].Buf) >= this.blockSize
 //@   loop 1 invariant this.obs.plain + this.available == old(this.obs.plain + this.available) + off && (old(this.obs.ofailed) ==> this.obs.ofailed) && this.obs.oclosed == old(this.obs.oclosed)
@@ -181,7 +185,11 @@ package io
 //@   ensures old(this.obs.ofailed) ==> this.obs.ofailed
 //@   panics this.obs.ofailed || old(this.obs.oclosed)                                                                        #bitstream-may-panic
 //@   modifies this.closed, this.closing, this.finalized, this.streamCloser, this.streamCloser.cclosed, this.available, this.blockID, this.initialized, this.buffers[*], this.obs.wbits, this.obs.ofailed, this.obs.oclosed, this.obs.tapeV, this.obs.tapeW, this.obs.plain, "A!Int"
-//@   loop 1 invariant this.repW() && this.closed == 1 && 0 - 1 <= rangeindex && rangeindex <= len(this.buffers)
+//@   ghostlocal calleeFailed bool = false
+//@   aftercall Writer).processBlock set calleeFailed = calleeFailed || result != nil
+//@   aftercall io.Closer.Close set calleeFailed = calleeFailed || result != nil
+//@   atreturn calleeFailed ==> result != nil                                                                                 #block-or-closer-error-is-returned @C08
+//@   loop 1 invariant this.repW() && this.closed == 1 && 0 - 1 <= rangeindex && rangeindex <= len(this.buffers) && !calleeFailed
 //@   loop 1 modifies this.buffers[*]
 
 //@ -- ------------------------------------------------------------------ Reader
@@ -314,6 +322,11 @@ package io
 //@   ensures this.repR0()                                                                                          #rep0
 //@   ensures this.closed == old(this.closed)
 //@   modifies this.initialized, this.available, this.consumed, this.blockID, this.blockSize, this.bufferThreshold, this.entropyType, this.transformType, this.outputSize, this.nbInputBlocks, this.hasher32, this.hasher64, this.buffers[*], this.ctx[*], block[*], this.ibs.rbitsI, this.ibs.ieof, this.ibs.aligned, this.ibs.ipos, "A!Int", "A!Iface", "MH!Int!Iface", "MV!Int!Iface"
+//@   ghostlocal calleeFailed bool = false
+//@   aftercall Reader).processBlock set calleeFailed = calleeFailed || result1 != nil
+//@   aftercall Reader).readHeader set calleeFailed = calleeFailed || result != nil
+//@   atreturn calleeFailed ==> result1 != nil                                                                       #block-error-is-returned @C08 @C02
+//@   loop 1 invariant !calleeFailed
 //@   loop 1 invariant this.repR() && this.filledOK() && off + remaining == len(block) && 0 <= remaining && 0 <= off && this.closed == old(this.closed) && (this.initialized == 1 || this.headless)
 //@   loop 1 invariant has(this.ctx, "from") ==> istype(this.ctx["from"], "int")
 //@   loop 1 invariant has(this.ctx, "to") ==> istype(this.ctx["to"], "int")
